@@ -12,7 +12,7 @@ from .workmeter import Meter, classify
 
 BUDGET_K = 400
 BUDGET_C = 400_000
-WALL = 60
+WALL = 120
 
 ENTRIES = ("extract_text", "extract_pages", "extract_text_to_fp:xml")
 
